@@ -534,6 +534,33 @@ func c19TransformCase(r *fw.Rec, idx int) {
 		if !c19CheckTransform(r, q2s, "QuadrilateralToSquare", srcFam, src, c19Unit) {
 			return
 		}
+		// directly afterwards: quadrilaterals that share corners with the previous ones (the same
+		// first and third corner with the other two moved; the same corners in transposed order;
+		// the same source with another destination) - a transform depends on all eight points of
+		// THIS call and on nothing that was computed before
+		for k := 0; k < 3; k++ {
+			src2, dst2 := src, dst
+			switch k {
+			case 0:
+				src2[1][0] += (rng.Float() - 0.5) * magS * 0.2
+				src2[1][1] += (rng.Float() - 0.5) * magS * 0.2
+				src2[3][0] += (rng.Float() - 0.5) * magS * 0.2
+				src2[3][1] += (rng.Float() - 0.5) * magS * 0.2
+			case 1:
+				src2[1], src2[3] = src[3], src[1]
+				dst2[1], dst2[3] = dst[3], dst[1]
+			case 2:
+				dst2[1][0] += (rng.Float() - 0.5) * magD * 0.2
+				dst2[3][1] += (rng.Float() - 0.5) * magD * 0.2
+			}
+			if !c19WellShaped(src2, 0.08) || !c19WellShaped(dst2, 0.08) {
+				continue
+			}
+			if !c19CheckTransform(r, c19Q2Q(src2, dst2), "QuadrilateralToQuadrilateral(after a call sharing corners)", "perspective", src2, dst2) {
+				return
+			}
+			r.Tally("transforms_after_a_call_sharing_corners")
+		}
 		r.Tally("transforms_checked")
 		r.NontrivialH(c19HashFloats(c19Flat(src), c19Flat(dst)))
 		if idx == 0 && rep < 2 {
@@ -1709,6 +1736,7 @@ func c19(c *fw.Ctx) {
 	}
 	c.Floor("quads_with_exactly_one_vanishing_coordinate_sum", 200)
 	c.Floor("corners_checked", 5000)
+	c.Floor("transforms_after_a_call_sharing_corners", 2000)
 	c.Floor("points_checked_interior", 5000)
 	c.Floor("points_checked_exterior", 5000)
 	c.Floor("cells_asserted", 500000)
